@@ -36,6 +36,10 @@ structure PKey where
   g : G1
   ckLen : Nat             -- number of points of the trimmed commit key
   lay : Composer          -- the compiled layout (for reference)
+  selE : Array (Array Nat) := #[]   -- stored coset evaluations (8n) of the 11 selectors, same order as `sel`
+  sigE8 : Array (Array Nat) := #[]  -- stored coset evaluations of the 4 sigma polynomials
+  linE : Array Nat := #[]           -- `linear_evaluations`
+  vh : Array Nat := #[]             -- `v_h_coset_8n`
   deriving Inhabited
 
 /-- trapdoor commitment with the degree guard of `CommitKey::commit` -/
@@ -105,7 +109,14 @@ def compile (srs : SRS) (srsLen : Nat) (label : List Nat) (c : Composer) : Excep
                            qarith := cs 6, qrange := cs 7, qlogic := cs 8, qfixed := cs 9, qvar := cs 10,
                            s1 := s1, s2 := s2, s3 := s3, s4 := s4 }
         let piIdx := (Plonk.Driver.sortedRows c)
-        .ok { k0 with vk := vk, piIndexes := piIdx }
+        match Domain.new? (8 * d.size) with
+        | none => .error (.compile .degreeIsZero)
+        | some d8 =>
+          .ok { k0 with vk := vk, piIndexes := piIdx,
+                        selE := sel.map fun p => (d8.cosetFft p).toArray,
+                        sigE8 := sigma.map fun p => (d8.cosetFft p).toArray,
+                        linE := (d8.cosetFft [0, 1]).toArray,
+                        vh := (d8.vanishingOverCoset d.size).toArray }
 where
   Plonk.Driver.sortedRows (c : Composer) : List Nat :=
     (c.pis.toList.map (·.1)).foldl (fun acc r =>
@@ -203,10 +214,10 @@ def prove (k : PKey) (c : Composer) (draws : List Nat) (v3 : Bool := true) : Exc
     let zE := cosetEvals d8 zP; let aE := cosetEvals d8 aP; let bE := cosetEvals d8 bP
     let cE := cosetEvals d8 cP; let dE := cosetEvals d8 dP
     let piE := (d8.cosetFft piPoly).toArray
-    let selE : Array (Array Nat) := k.sel.map fun p => (d8.cosetFft p).toArray
-    let sigE8 : Array (Array Nat) := k.sigma.map fun p => (d8.cosetFft p).toArray
-    let linE := (d8.cosetFft [0, 1]).toArray
-    let vh := (d8.vanishingOverCoset n).toArray
+    let selE := k.selE
+    let sigE8 := k.sigE8
+    let linE := k.linE
+    let vh := k.vh
     let vhInv8 := (batchInversion ((vh.toList).take 8)).toArray
     let l1Den := (batchInversion (linE.toList.map fun e => fsub e 1)).toArray
     let nInv8 := fmul d8.sizeInv 8
